@@ -657,6 +657,31 @@ def run(report, p):
                         r10.check(False, f, e, f"`{norm(e)[:50]}` is tested for truth, and its class {base.split('.')[-1]} defines {special[base]}: the test no longer means 'there is one' but 'it is not empty'", construct=f"truth test of {base.split('.')[-1]} instance: {norm(e)[:40]}")
     r10.check(True, None, None, "")
 
+    # ------------------------------------------------------------------ R3.15
+    r15 = report.rule(
+        "R3.15",
+        "a record is not lost when a nested history is started below it: verify and diff route a traversed file to the deepest history and ask only that one for the original entry. "
+        "When the routed history has none, the file counts as new - unless the histories above it are consulted as well. A nested history created later for only some files of a folder "
+        "(`create ROOT/sub -sf ROOT/sub/b.txt`) takes over the routing of `sub/a.txt`, whose record stays in the root history",
+        2,
+    )
+    for fq, f in sorted(p.funcs.items()):
+        if not f.module.name.endswith("commands"):
+            continue
+        lookups = [c for c, tg in p.calls[fq] if any(t.endswith("find_original_hash_entry_for_path") for t in tg)]
+        exc_tests = [n for n in walk_no_nested(f.node) if isinstance(n, ast.If) and any(isinstance(x, ast.Call) and norm(x.func).endswith("NewFilesFoundException") for st in n.body for x in ast.walk(st))]
+        if not lookups or not exc_tests:
+            continue
+        for c in lookups:
+            r15.instance(f, c, f"{f.name}: {norm(c)[:70]}")
+            routed = any(st_[0] == "call" and st_[1].endswith("find_history_for_path") for o in pr.origins(c.func.value, f) for st_ in subterms(o)) if isinstance(c.func, ast.Attribute) else False
+            if not routed:
+                r15.check(True, f, c, "")
+                continue
+            # any second lookup on a parent / the root history, or a loop over ancestors, in this function?
+            fallback = any(isinstance(n, ast.Attribute) and n.attr == "parent_history" for n in walk_no_nested(f.node)) or len(lookups) > 1
+            r15.check(fallback, f, c, f"`{f.name}` asks only the routed (deepest) history for a file's original entry: a file whose record lives in a history ABOVE a nested history that was started later (for other files of that folder) is reported as new, and the unchanged tree exits 21", construct=f"{f.name}: no fallback to the histories above the routed one")
+
     # ------------------------------------------------------------------ R3.14
     r14 = report.rule(
         "R3.14",
